@@ -359,6 +359,15 @@ func (k Keeper) RegisterERC20Trace(
 	originChain string,
 	scale uint8,
 ) error {
+	// binding again resets what the endpoint contract has recorded as minted for this origin: with
+	// tokens outstanding they could never be sent back and the source escrow never released
+	_, amount, bound, err := k.QueryERC20Trace(ctx, contract, originChain)
+	if err != nil {
+		return fmt.Errorf("query binding failed: %s", err)
+	}
+	if bound && amount != nil && amount.Sign() != 0 {
+		return fmt.Errorf("token %s is already bound for chain %s with %s minted", contract, originChain, amount)
+	}
 	if _, err := k.AddERC20TraceToTransferContract(ctx, contract, originToken, originChain, scale); err != nil {
 		return fmt.Errorf("call bindToken failed: %s", err)
 	}
